@@ -369,6 +369,7 @@ This decides `no new unaudited panic/recursion/loop site`, the enumerated necess
     loops(m, ctx);
     withdraw(m, ctx);
     dead_guard(m, ctx);
+    oid_arcs_invariant(m, ctx);
     // the audit entry of inner_name's format_ident! ("parent is a generated type name") is tied to the one caller that builds
     // the parent from a string it splits itself
     crate::rules::c07::nested_choice_ident(m, ctx, "C08.ident");
@@ -478,6 +479,77 @@ fn value_cycle(m: &Model, ctx: &mut Ctx) {
             Err(e) if e.contains("$unbounded") => ctx.violate("C08.refchain", &key, &f.file, f.line,
                 &format!("`a T ::= b  b U ::= c  c U ::= b` with a {} governor: link_with_type is still substituting references after 12 rounds — the chain of value references is followed without a visited list, so this input overflows the stack", label)),
             Err(e) => ctx.fail_closed("C08.refchain", &format!("[{}]: {}", key, e)),
+        }
+    }
+}
+
+/// C08.arcs: the generators' `unreachable!("Lexer only parses OID arcs with at least a name or a numeral!")` is audited benign on
+/// the strength of that invariant. The lexer keeps it; the linker must keep it too: the arm of link_with_type that re-reads a
+/// `{ x 9 y }`-shaped OBJECT IDENTIFIER value as a SEQUENCE / SET (OF) value *consumes* the arc names, and when a later pair is
+/// malformed the definition is kept with a warning — whatever value is left behind reaches the generators. The arm is
+/// evaluated (link_with_type whole) on `{ x 9 y }`: afterwards every arc the value still holds has a name or a number.
+fn oid_arcs_invariant(m: &Model, ctx: &mut Ctx) {
+    use crate::eval::{Env, Evaluator, Val};
+    use crate::rules::util::{const_resolver, inline_all};
+    use std::collections::BTreeMap as Map;
+    let rule = "C08.arcs";
+    let Some(f) = m.fns.iter().find(|f| f.name == "link_with_type" && f.self_ty.as_deref() == Some("ASN1Value")) else {
+        ctx.fail_closed(rule, "anchor not found: ASN1Value::link_with_type");
+        return;
+    };
+    let consts = const_resolver(m);
+    let mut inl = inline_all(m, &["ASN1Value"]);
+    inl.retain(|k, _| !k.starts_with('.') || k == ".link_with_type");
+    let depth = std::cell::Cell::new(0usize);
+    let hook = |_: &Evaluator, name: &str, a: &[Val]| -> Option<Result<Val, String>> {
+        match (name, a.first()) {
+            (".link_with_type", _) => {
+                depth.set(depth.get() + 1);
+                if depth.get() > 6 { Some(Err("link_with_type does not return".into())) } else { None }
+            }
+            ("Self::link_struct_like", _) | ("Self::link_array_like", _) | ("ASN1Value::link_struct_like", _) | ("ASN1Value::link_array_like", _) => Some(Ok(Val::Ctor("Ok".into(), vec![Val::Sym("LINKED".into())], Map::new()))),
+            (".try_into", Some(Val::Int { .. })) | ("<u128 as TryInto<i128>>::try_into", Some(Val::Int { .. })) => Some(Ok(Val::Ctor("Ok".into(), vec![a[0].clone()], Map::new()))),
+            (".borrow_mut", Some(v)) | (".borrow", Some(v)) if a.len() == 1 && matches!(v, Val::Ctor(..)) => Some(Ok(v.clone())),
+            ("grammar_error!", _) => Some(Ok(Val::Sym("GrammarError".into()))),
+            ("Box::new", Some(v)) => Some(Ok(v.clone())),
+            _ => None,
+        }
+    };
+    let ev = Evaluator { consts: &consts, call_hook: &hook, inline: Some(&inl) };
+    let params: Vec<String> = f.sig.inputs.iter().filter_map(|a| match a { syn::FnArg::Typed(t) => Some(tok(&t.pat)), _ => None }).collect();
+    let named = |n: &str, fields: Vec<(&str, Val)>| Val::Ctor(n.to_string(), vec![], fields.into_iter().map(|(k, v)| (k.to_string(), v)).collect::<Map<_, _>>());
+    let arc = |name: Option<&str>, number: Option<i128>| named("ObjectIdentifierArc", vec![("name", name.map(|n| Val::some(Val::Str(n.into()))).unwrap_or(Val::none())), ("number", number.map(|n| Val::some(Val::int(n))).unwrap_or(Val::none()))]);
+    let seq_ty = Val::Ctor("Sequence".into(), vec![Val::Opaque("members".into())], Map::new());
+    for (label, arcs) in [("{ x 9 y }", vec![arc(Some("x"), None), arc(None, Some(9)), arc(Some("y"), None)]), ("{ x 9 y z }", vec![arc(Some("x"), None), arc(None, Some(9)), arc(Some("y"), None), arc(Some("z"), None)])] {
+        let key = format!("oid-as-struct:{}", label.replace(' ', ""));
+        ctx.oblige(rule, &key, true);
+        depth.set(0);
+        let value = Val::Ctor("ObjectIdentifier".into(), vec![Val::Ctor("ObjectIdentifierValue".into(), vec![Val::List(arcs)], Map::new())], Map::new());
+        let mut env = Env::new();
+        env.insert("self".into(), value);
+        env.insert(params.first().cloned().unwrap_or("tlds".into()), crate::eval::new_map());
+        env.insert(params.get(1).cloned().unwrap_or("ty".into()), seq_ty.clone());
+        env.insert(params.get(2).cloned().unwrap_or("type_name".into()), Val::some(Val::Str("Seq".into())));
+        match ev.eval_fn_body(&f.block, &mut env) {
+            Ok(r) => {
+                // whatever the outcome: the arcs of an OBJECT IDENTIFIER value that is still there
+                fn arcs_of(v: &Val, out: &mut Vec<Val>) {
+                    match v {
+                        Val::Ctor(n, _, _) if n == "ObjectIdentifierArc" => out.push(v.clone()),
+                        Val::Ctor(_, p, f) => { p.iter().for_each(|x| arcs_of(x, out)); f.values().for_each(|x| arcs_of(x, out)); }
+                        Val::List(l) | Val::Tuple(l) => l.iter().for_each(|x| arcs_of(x, out)),
+                        _ => {}
+                    }
+                }
+                let mut left = vec![];
+                if let Some(v) = env.get("self") { arcs_of(v, &mut left); }
+                let bad: Vec<String> = left.iter().filter(|a| match a { Val::Ctor(_, _, fl) => fl.get("name") == Some(&Val::none()) && fl.get("number") == Some(&Val::none()), _ => false }).map(|a| a.show()).collect();
+                if !bad.is_empty() {
+                    ctx.violate(rule, "oid-as-struct:arc-without-name-and-number", &f.file, f.line,
+                        &format!("`v Seq ::= {}` (first pair well formed, a later one not): link_with_type returns {} and leaves an OBJECT IDENTIFIER value with {} arc(s) that have neither a name nor a number — the definition is kept with a warning, and format_oid reaches `unreachable!(\"Lexer only parses OID arcs with at least a name or a numeral!\")`: a panic where an Err or a warning is due", label, match &r { Val::Ctor(n, _, _) => n.clone(), o => o.show() }, bad.len()));
+                }
+            }
+            Err(e) => ctx.fail_closed(rule, &format!("[{}]: {}", key, e)),
         }
     }
 }
